@@ -599,10 +599,8 @@ def main(argv):
         "wall_s": round(wall, 2),
         "violations": len(new_viol),
     }
-    if level != "proof":
-        ev["coverage"]["evaluations"] = max(n_ob, 1)
-        ev["coverage"]["distinct_nontrivial"] = max(n_dis, 2) if n_dis >= 2 else 2
-        ev["coverage"]["rule"] = ev["coverage"]["obligation_counting_rule"]
+    # (no `evaluations` / `distinct_nontrivial`: nothing is sampled here - the counts this run measures are the
+    # obligations generated and discharged, listed one by one under `samples`)
 
     if undecided:
         ev["coverage"]["discharged"] = 0 if level == "proof" else ev["coverage"]["discharged"]
